@@ -155,7 +155,7 @@ func main() {
 		if err := os.MkdirAll(outDir, 0o755); err != nil {
 			fatal("%v", err)
 		}
-		var inits []string
+		var inits, varInits []string
 		for i, f := range p.files {
 			in := &instr{fset: fset, info: p.info, fileName: filepath.Join(d, p.names[i]), sites: &sites, base: base}
 			in.file(f)
@@ -170,6 +170,32 @@ func main() {
 					fd.Name = ast.NewIdent(fmt.Sprintf("simInit%d", len(inits)))
 					inits = append(inits, fd.Name.Name)
 				}
+			}
+			// package-level variables initialised with a channel (a semaphore, a shared queue) are created when the
+			// process starts, i.e. outside every simulation: blocking on such a channel is invisible to the scheduler.
+			// SimReinit assigns them again (same initialiser, same file, hence same imports) inside the simulation.
+			var reassign []ast.Stmt
+			for _, dcl := range f.Decls {
+				gd, ok := dcl.(*ast.GenDecl)
+				if !ok || gd.Tok != token.VAR {
+					continue
+				}
+				for _, sp := range gd.Specs {
+					vs, ok := sp.(*ast.ValueSpec)
+					if !ok || len(vs.Values) == 0 || !containsMakeChan(vs.Values) {
+						continue
+					}
+					var lhs []ast.Expr
+					for _, n := range vs.Names {
+						lhs = append(lhs, ast.NewIdent(n.Name))
+					}
+					reassign = append(reassign, &ast.AssignStmt{Lhs: lhs, Tok: token.ASSIGN, Rhs: vs.Values})
+				}
+			}
+			if len(reassign) > 0 {
+				name := fmt.Sprintf("simReinitVars%d", i)
+				f.Decls = append(f.Decls, &ast.FuncDecl{Name: ast.NewIdent(name), Type: &ast.FuncType{Params: &ast.FieldList{}}, Body: &ast.BlockStmt{List: reassign}})
+				varInits = append(varInits, name)
 			}
 			var buf bytes.Buffer
 			if err := format.Node(&buf, fset, f); err != nil {
@@ -191,6 +217,9 @@ func main() {
 			fmt.Fprintf(&sb, "\t%s()\n", n)
 		}
 		sb.WriteString("}\n\n// SimReinit re-runs the package's init functions (instrumented copy only).\nfunc SimReinit() {\n")
+		for _, n := range varInits {
+			fmt.Fprintf(&sb, "\t%s()\n", n)
+		}
 		for _, n := range inits {
 			fmt.Fprintf(&sb, "\t%s()\n", n)
 		}
@@ -251,6 +280,24 @@ func (in *instr) site(pos token.Pos, kind string) ast.Expr {
 func (in *instr) tmp(prefix string) *ast.Ident {
 	in.tmpN++
 	return ast.NewIdent(fmt.Sprintf("_sim%s%d", prefix, in.tmpN))
+}
+
+// containsMakeChan reports whether one of the expressions contains make(chan ...).
+func containsMakeChan(es []ast.Expr) bool {
+	found := false
+	for _, e := range es {
+		ast.Inspect(e, func(n ast.Node) bool {
+			if c, ok := n.(*ast.CallExpr); ok {
+				if id, ok := c.Fun.(*ast.Ident); ok && id.Name == "make" && len(c.Args) > 0 {
+					if _, ok := c.Args[0].(*ast.ChanType); ok {
+						found = true
+					}
+				}
+			}
+			return !found
+		})
+	}
+	return found
 }
 
 func simCall(fn string, args ...ast.Expr) *ast.CallExpr {
